@@ -155,9 +155,47 @@ def run(ctx):
             if binding(a3, "R") != "done":
                 failures.append({"key": "alloc-failure:rerun-wrong:%s" % w, "what": "the workload does not complete when rerun after the handled resource error", "input": inp,
                                  "impl": json.dumps(a3)[:300], "spec": "R = done", "property_fails": True})
+    # (c) requests no memory can satisfy: the size arithmetic in front of the allocation must itself end in the catchable error
+    #     (sizes around every power of two at which cells*8, cells*2 or the byte count wrap), and the machine must stay usable
+    huge = []
+    for e in (60, 61, 62, 63, 64):
+        for d in (-1, 0, 1):
+            huge.append((1 << e) + d)
+    hq = []
+    for n in huge:
+        hq.append(("length(L, %d)" % n, "length"))
+        hq.append(("length(L0, 2), append(L0, T, L), length(L, %d)" % n, "length-partial"))
+    chained = []
+    for i in range(0, len(hq), 6):
+        steps = [{"consult": PROG}]
+        for j in range(i, min(i + 6, len(hq))):
+            f = FOLLOW[j % len(FOLLOW)]
+            steps += [{"q": "catch((%s, R = done), error(Err, _), R = caught(Err))." % hq[j][0]}, {"q": f[0]}]
+        chained.append({"id": "huge%d" % i, "fresh": True, "timeout_ms": 20000, "steps": steps})
+    res3 = core.vrun_query(ctx.prop, chained, tag="huge")
+    dist["huge_requests"] = len(hq)
+    for i in range(0, len(hq), 6):
+        rec = res3.get("huge%d" % i, {})
+        rs = rec.get("results") or []
+        for j in range(i, min(i + 6, len(hq))):
+            k = 1 + 2 * (j - i)
+            a1 = rs[k] if len(rs) > k else None
+            a2 = rs[k + 1] if len(rs) > k + 1 else None
+            f = FOLLOW[j % len(FOLLOW)]
+            evals += 1; nontriv += 1
+            got = binding(a1, "R")
+            inp = "catch((%s, R = done), error(Err,_), R = caught(Err))" % hq[j][0]
+            if got is None or "resource_error" not in got:
+                failures.append({"key": "alloc-failure:unsatisfiable-request:%s" % hq[j][1], "what": "a request for more memory than can exist did not surface as a catchable resource_error(memory)",
+                                 "input": inp, "impl": json.dumps(a1 if a1 is not None else rec)[:300], "spec": "R = caught(resource_error(memory))", "property_fails": True})
+                break
+            if binding(a2, f[1][0]) != f[1][1]:
+                failures.append({"key": "alloc-failure:follow-up-wrong", "what": "a goal run after the handled resource error gives a wrong answer", "input": "%s after %s" % (f[0], inp),
+                                 "impl": json.dumps(a2)[:300], "spec": "%s = %s" % f[1], "property_fails": True})
+                break
     return {"evaluations": evals, "distinct_nontrivial": nontriv,
             "rule": ("(a) heap operation sequences from the C33 generator (push_cell, allocate_pstr/cstr, reserve at steered fill levels) on the real Heap with growth requests from..from+count failing, "
                      "compared with the mirror after every operation; (b) nine whole-goal workloads (numlist, copy_term, findall, assertz/retract, atom_chars, number_codes of a bignum, sort, length/2, "
                      "read_from_chars), each on a fresh machine with its k-th heap-growth request failing once, for EVERY k the workload makes (and persistently for the last k), then a follow-up goal "
-                     "and an uninjected rerun. Non-trivial = heap sequence in which a growth failed + every whole-goal injection."),
+                     "and an uninjected rerun; (c) length/2 with sizes 2^60..2^64 (+-1), on a fresh and on a partial list, six per machine with follow-up goals. Non-trivial = heap sequence in which a growth failed + every whole-goal injection."),
             "samples": samples, "distribution": dist, "failures": failures, "tie_breaks": tie_breaks}
